@@ -33,8 +33,14 @@ package dns
 //@   assert at "return len(s) + 1" plainlen: noesc(s) && unitsfrom(s, 0) == len(s)
 
 // character-strings: one length octet plus at most one octet per character (exactly, without escapes)
+// octet contents: the k-th octet written is the value of the k-th escape unit of the text (RFC 1035 5.1: a plain
+// octet, \DDD or \c); upos(s, p, k) is the text position reached from p after k units
+//@ spec upos(s seq, p int, k int) int = k <= 0 ? p : unext(s, upos(s, p, k-1)) decreases k
 //@ func packTxtString [C08 C01 C16]
 //@   requires 0 <= offset
+//@   ensures octets: ret1 == nil ==> (forall k in 0..ret0-offset-1 :: msg[offset+1+k] == uval(s, upos(s, 0, k))) [C01]
+//@   loop 1 invariant unitpos: i == upos(s, 0, offset - old(offset) - 1) [C01]
+//@   loop 1 invariant octets: forall k in 0..offset-old(offset)-1 :: msg[old(offset)+1+k] == uval(s, upos(s, 0, k)) [C01]
 //@   ensures ok:  ret1 == nil ==> offset < ret0 && ret0 <= len(msg) && ret0 - offset <= len(s) + 1 && msg[offset] == ret0 - offset - 1 && ret0 - offset - 1 <= 255
 //@   ensures exact: ret1 == nil && noesc(s) ==> ret0 - offset == len(s) + 1
 //@   loop 1 invariant 0 <= i && old(offset) < offset && offset <= len(msg) && offset - old(offset) - 1 <= i && i <= len(s) && (noesc(s) ==> offset - old(offset) - 1 == i)
@@ -44,6 +50,7 @@ package dns
 //@   ensures ok:  ret1 == nil ==> off < ret0 && ret0 <= len(msg) && ret0 - off <= len(s) + 1
 //@   ensures exact: ret1 == nil && noesc(s) ==> ret0 - off == len(s) + 1
 //@   ensures fail: ret1 != nil ==> ret0 == len(msg)
+//@   ensures octets: ret1 == nil ==> msg[off] == ret0 - off - 1 && (forall k in 0..ret0-off-1 :: msg[off+1+k] == uval(s, upos(s, 0, k))) [C01]
 //@   writes msg
 
 //@ func packStringHex [C08 C01 C16]
